@@ -23,8 +23,12 @@ Rewrites of profile_table_for_join(input_table, profile_attrs):
        list(T.columns.values) / T.columns -> frame_columns     len(T) -> frame_len
        T[attr]            -> frame_col   (attr: a name bound ONLY as the target of `for attr in profile_attrs`)
        pd.isnull(T[attr]) -> series_isnull (a mask)            sum(<mask>) -> py_sum
-       len(T[attr].unique()) -> series_nunique(frame_col ..)   (exactly this nesting; .unique() anywhere
-                                                                else is rejected)
+       len(T[attr].dropna().unique()) -> series_nunique_present(frame_col ..)
+                                             (exactly this nesting, no arguments: the number of distinct
+                                              NON-missing cells; .unique() / .dropna() of a series anywhere
+                                              else -- in particular len(T[attr].unique()), which counts None
+                                              and NaN as two values, the repaired defect -- is rejected,
+                                              and so is every other series method, e.g. .nunique())
        pd.DataFrame(records, columns=header) -> frame_of_records   (one positional + the keyword columns)
        F.set_index(<string constant>)        -> frame_set_index    (one positional argument, no keywords;
                                                                     F a local bound once to frame_of_records)
@@ -35,6 +39,22 @@ Rewrites of profile_table_for_join(input_table, profile_attrs):
      -> py_str_join;  float / round / len / list as everywhere (py2coq).  `str`, `sum`, `len`, `float`, `round`,
      `list` must not be shadowed (module-level definition, import, or local binding).
  (d) the default `profile_attrs=None` is dropped (every argument is explicit in the model).
+
+The missing value is counted as ONE value by the source itself, verbatim (py2coq):
+       missing_values = sum(pd.isnull(T[attr]))
+       unique_values = len(T[attr].dropna().unique())
+       if missing_values > 0: unique_values += 1
+Shape / order mutants of these three statements (14, script kept with the task log as run_mutants.py; each is
+either rejected here or changes the generated definition, and then Proofs/ProfilerRefine.v no longer compiles):
+  len(T[attr].unique())  (also: the old source verbatim)  rejected  (.unique() without .dropna())
+  T.dropna()[attr].unique()                                rejected  (.unique() without .dropna())
+  T[attr].nunique() / T[attr].nunique(dropna=False)        rejected  (method of a series)
+  sum(pd.isnull(T[attr].dropna()))                         rejected  (method of a series)
+  present = T[attr].dropna(); len(present.unique())        rejected  (method of a series)
+  T[attr].dropna(how='all').unique()                       rejected  (dropna() of a series with arguments)
+  `unique_values += 1` unconditional / `if missing_values >= 0` / `+= 2` / the `if` dropped /
+  `if unique_values > 0` / unique (and its `if`) before the isnull scan (missing_values read before it is
+  bound)                                                   definition changes, refinement proof fails
 """
 import ast
 import copy
@@ -72,7 +92,8 @@ EXPECTED = {'validate_attr': 'py_stringsimjoin.utils.validation',
 MODULES = {'pd': 'pandas'}
 BUILTINS = {'len', 'round', 'float', 'list', 'str', 'sum', 'True', 'False', 'None'}
 PRIMS = dict(wrappers.PRIMS)
-PRIMS.update({'series_nunique': (['series'], 'val'), 'py_sum': (['mask'], 'val'),
+PRIMS.update({'series_nunique_present': (['series'], 'val'), 'series_nunique': (['series'], 'val'),
+              'py_sum': (['mask'], 'val'),
               'frame_of_records': (['val', 'val'], 'frame'), 'frame_set_index': (['frame', 'val'], 'iframe')})
 RESERVED = set(PRIMS) | {'py_str', 'py_str_join', 'str_float'}
 
@@ -144,7 +165,7 @@ class ProfTyper(wrappers.FrameTyper):
         self.unique_seen = 0
 
     def rw(self, e):
-        if isinstance(e, ast.Attribute) and e.attr in ('unique', 'set_index'):
+        if isinstance(e, ast.Attribute) and e.attr in ('unique', 'dropna', 'nunique', 'set_index'):
             raise Unsupported('%s outside the expected call shape' % e.attr)
         return wrappers.FrameTyper.rw(self, e)
 
@@ -152,16 +173,21 @@ class ProfTyper(wrappers.FrameTyper):
         f = c.func
         if isinstance(f, ast.Name) and f.id in RESERVED:
             raise Unsupported('source uses the reserved name ' + f.id)
-        # len(S.unique())
+        # len(S.dropna().unique())
         if isinstance(f, ast.Name) and f.id == 'len' and len(c.args) == 1 and not c.keywords and \
                 isinstance(c.args[0], ast.Call) and isinstance(c.args[0].func, ast.Attribute) and \
                 c.args[0].func.attr == 'unique':
             u = c.args[0]
             if u.args or u.keywords:
                 raise Unsupported('unique() with arguments')
-            s = self.want(u.func.value, 'series', 'receiver of .unique()')
+            d = u.func.value
+            if not (isinstance(d, ast.Call) and isinstance(d.func, ast.Attribute) and d.func.attr == 'dropna'):
+                raise Unsupported('.unique() without .dropna(): None and NaN would be counted as two values')
+            if d.args or d.keywords:
+                raise Unsupported('dropna() of a series with arguments')
+            s = self.want(d.func.value, 'series', 'receiver of .dropna().unique()')
             self.unique_seen += 1
-            return wrappers.call('series_nunique', s), 'val'
+            return wrappers.call('series_nunique_present', s), 'val'
         # sum(<mask>)
         if isinstance(f, ast.Name) and f.id == 'sum':
             if len(c.args) != 1 or c.keywords:
@@ -278,7 +304,8 @@ def gen_profiler(repo):
     notes.append('input_table: frame; labels: %s (elements of profile_attrs); returns frame_set_index(..)'
                  % ', '.join(sorted(ft.labels)))
     notes.append('str(e) -> py_str str_float e; <const>.join(e) -> py_str_join; sum(pd.isnull(T[a])) -> '
-                 'py_sum (series_isnull (frame_col T a)); len(T[a].unique()) -> series_nunique (frame_col T a)')
+                 'py_sum (series_isnull (frame_col T a)); len(T[a].dropna().unique()) -> '
+                 'series_nunique_present (frame_col T a)')
     fn.name = 'profile_table_for_join_rows'
     ast.fix_missing_locations(fn)
 
